@@ -31,6 +31,7 @@ struct SdoDict {
     void build(const Plan &p, int nSsdo, bool constSdoIds = true) {
         add_mandatory(specs, nSsdo); (void)constSdoIds;
         if (p.c("poolfull", -1) >= 0) add_typed(specs, T_HBPROD, 0x1017, 0, CO_OBJ_____RW, 0);
+        if (p.c("hbcons", 0)) { add_typed(specs, T_HBCONS, 0x1016, 0, CO_OBJ_D___R_, 3); for (int k = 1; k <= 3; k++) { uint32_t v = (uint32_t)p.c("hbc" + std::to_string(k), 0); add_typed(specs, T_HBCONS, 0x1016, (uint8_t)k, CO_OBJ_____RW, v & 0xFFFF, (int)(v >> 16 & 0x7F)); } }   // C04 plans: heartbeat consumer entries (verdict 0604 0043h for a node that is monitored already)
         if (p.c("resetfail", 0)) { ObjSpec o; o.idx = 0x2305; o.sub = 0; o.flags = CO_OBJ_____RW; o.type = T_USER; o.val = 0xFFFF; specs.push_back(o); }   // C05 plans: an entry whose type refuses the rewind at the start of a transfer   // C04 plans: a writable entry whose type needs a timer slot
         uint16_t i = 0x2000;
         addInt(i, 0, 1, CO_OBJ_D___R_, 9);
